@@ -78,13 +78,24 @@ const (
 	EndOfAuditLogChainMessage = "End of current audit log chain"
 )
 
+// splitIntegrity splits a plaintext/cef log line into the authenticated data and the integrity part.
+// The crypto hook appends " integrity=<value>[ chain=new]" after the formatted entry, so the line is split
+// at the LAST occurrence of the token: a message or a field of the entry may contain " integrity=" itself.
+func splitIntegrity(rawData string) ([]string, bool) {
+	idx := strings.LastIndex(rawData, DataSplitToken)
+	if idx < 0 {
+		return nil, false
+	}
+	return []string{rawData[:idx], rawData[idx+len(DataSplitToken):]}, true
+}
+
 // ParseEntry parse cef log line with next expected input example and return ParsedLogEntry:
 // CEF:0|<value>|<value>|<value>|100|<value>|1|unixTime=<value> integrity=<value> chain=<value>
 // CEF:0|<value>|<value>|<value>|100|<value>|1|unixTime=<value> integrity=<value>
 func (parser *CefLogParser) ParseEntry(rawData string) (*ParsedLogEntry, error) {
 	parsedLogEntry := &ParsedLogEntry{}
-	rawLogEntry := strings.Split(rawData, DataSplitToken)
-	if len(rawLogEntry) != 2 {
+	rawLogEntry, ok := splitIntegrity(rawData)
+	if !ok {
 		return nil, ErrCefIntegrityExtract
 	}
 	parsedLogEntry.RawData = []byte(rawLogEntry[0])
@@ -114,8 +125,8 @@ func (parser *CefLogParser) ParseEntry(rawData string) (*ParsedLogEntry, error) 
 // time="<value>" level=<value> msg="<value>" version=<value> integrity=<value>
 func (parser *PlaintextLogParser) ParseEntry(rawData string) (*ParsedLogEntry, error) {
 	parsedLogEntry := &ParsedLogEntry{}
-	rawLogEntry := strings.Split(rawData, DataSplitToken)
-	if len(rawLogEntry) != 2 {
+	rawLogEntry, ok := splitIntegrity(rawData)
+	if !ok {
 		return nil, ErrPlaintextIntegrityExtract
 	}
 	parsedLogEntry.RawData = []byte(rawLogEntry[0])
